@@ -1,7 +1,7 @@
 _T = 'AITB.Codec.'
 SPEC = {
     'id': 'C17',
-    'lean_modules': ['AITB.Props.C17'],
+    'lean_modules': ['AITB.Props.C17', 'AITB.Props.C17Dbl'],
     'theorems': [_T + t for t in [
         # numbers and combinators
         'scanN_printN', 'rep_roundtrip', 'rep_ok',
@@ -37,6 +37,12 @@ SPEC = {
         'count_integer_example',
         # bare Vector codec; decisions are a function of the table, and the precision witness flips one
         'roundtrip_vec', 'rdVec_ok', 'ext_rdVec', 'decisions_of_roundtrip', 'ppol_prec6_decision_counterexample',
+        # round 3: 17 significant digits identify a double, proved on the model's own number codec (sigDigits = the digits
+        # printf %.17g emits, toDouble = correctly rounded strtod); structural predicate <-> the executable isDoubleB
+        'floorLog10_le', 'roundHalfEven_close', 'roundHalfEven_eq', 'floorLog2_spec', 'floorLog2_unique', 'toDouble_near',
+        'decValue_sigDigits', 'decValue_sigDigits_close', 'toDouble_of_close', 'toDouble_sigDigits_ge17', 'toDouble_sigDigits17',
+        'toDouble_neg', 'toDouble_of_IsPosDbl', 'isDoubleB_of_IsPosDbl', 'IsPosDbl_of_toDouble', 'IsPosDbl_of_isDoubleB',
+        'isDoubleB_iff_IsPosDbl', 'sixteen_digits_not_enough',
     ]],
     # obligations over the regenerated module AITB.Gen.IOPrec (re-proved against the source on every run)
     'gen_obligations': [_T + 'IOPrec_utils_ge_17', _T + 'IOPrec_pomdpPolicy', _T + 'IOPrec_commit_last'],
